@@ -63,6 +63,8 @@ def canBeCastedTo (isSubclassOf : Nat → Nat → Bool) : Ty → Ty → Bool
   | _, .uninitialized => true
   | .any, _ => true
   | _, .any => true
+  | .unknown, _ => true
+  | _, .unknown => true
   | .int, .bit => true
   | .bit, .int => true
   | .int, .bits _ => true
